@@ -131,6 +131,9 @@ type recorder struct {
 }
 
 func (rc *recorder) handle(name string, args ...any) {
+	if strings.HasPrefix(name, "ks.") {
+		return // keyspace scheduler gates: not file operations
+	}
 	rc.mu.Lock()
 	if rc.armed && rc.inRw && rc.interleave != nil && name == rc.interleaveAt {
 		f := rc.interleave
